@@ -260,3 +260,15 @@ Proof.
     now rewrite (proj2 (slot_eqb_eq _ _) eq_refl) in Hin.
 Qed.
 End Sched.
+
+(* ---------- exceptions: threaded assembly raises exactly when serial assembly does ---------- *)
+Lemma existsb_concat {A} (f : A -> bool) (ls : list (list A)) :
+  existsb f (concat ls) = existsb (existsb f) ls.
+Proof. induction ls as [|l ls IH]; simpl; auto. now rewrite existsb_app, IH. Qed.
+
+Theorem threaded_raises_iff_serial {V} (K : nat -> nat -> option V) k Nu Nv : 0 < k ->
+  threaded_raises K k Nu Nv = serial_raises K Nu Nv.
+Proof.
+  intros Hk. unfold threaded_raises, serial_raises.
+  rewrite <- existsb_concat, array_split_concat by assumption. reflexivity.
+Qed.
